@@ -3,7 +3,7 @@ HOOKS = {
     "guard": "verif",
     "enable": "go build -tags verif (drivers are added to the module with -overlay, see lib/vlib/gobuild.py)",
     "baseline_off_cmd": "cd /repo && GOFLAGS=-mod=mod GOPROXY=off GOSUMDB=off GOTOOLCHAIN=local go test -json -vet=off -count=1 -timeout 25m ./...",
-    "source_commits": ["0c4db6e", "42202d4", "7d1cb3d", "e865236", "d3573ec"],
+    "source_commits": ["0c4db6e", "42202d4", "7d1cb3d", "e865236", "d3573ec", "14ec97e"],
     "add_only": True,
 }
 ENGINES = [
@@ -145,17 +145,17 @@ CHECKS["C08"] = {
     "engine": "tlc",
     "level": "model_checking",
     "design_ref": "DESIGN.md section 0.2 / 4 C08",
-    "technique": "TLC-enumerated scripts (8 well-formed prefixes x 44 hostile message kinds x probe x Close once/twice) replayed against a real Conn; process survival + RpcEndState trace specification (allowed reaction, no send after close, local calls resolve, Close returns, Done closes, locks free, capabilities released)",
+    "technique": "TLC-enumerated scripts (8 well-formed prefixes x 44 hostile message kinds x probe x Close once/twice) replayed against a real Conn; process survival + RpcEndState trace specification (allowed reaction, no send after close, local calls resolve, Close returns, Done closes, locks free, capabilities released) + RpcSync trace specification over the recorded sender-lock / task / shutdown events of every connection (projection of the lock model RpcLocks.tla, see C09)",
     "text": "Hostile kinds cover the id spaces and unions of rpc.capnp: unknown / reused ids in Call, Bootstrap, Finish (twice), Release (unknown, too many), Return, Disembargo; capability descriptors naming no export or using receiverAnswer / thirdPartyHosted / unknown members; unknown members of Message, MessageTarget, Return, Disembargo.context, PromisedAnswer.Op; sendResultsTo.yourself; null params / target; Resolve / Provide / Accept / Join; Abort; empty message; a call addressed to its own answer; capability tables whose first entry is a good new import and whose second is bad (calls and Returns); undeliverable calls that carry a capability; Returns for unknown questions with capabilities. A panic in a library goroutine kills the driver and is attributed to the running script.",
     "note": "Byte-level corruption of a stream transport is not part of this check (C01 covers hostile bytes at the message level).",
 }
 CHECKS["C09"] = {
     "engine": "tlc",
-    "level": "fault_enumeration",
-    "design_ref": "DESIGN.md section 0.2 / 4 C09",
-    "technique": "TLC-enumerated fault plans (7 base scenarios x {NewMessage, send, receive} failure x operation index 1..7 x Close once/twice; Close injected at every step) replayed against a real Conn with a fault-injecting transport; RpcEndState trace specification + verif view of the connection mutex / sender lock",
-    "text": "For every plan: every local call resolves (not by the harness' own timeout), Close returns also the second time, Done closes, nothing is sent after the transport was closed, every capability is shut down, and afterwards mu.TryLock succeeds and the sender lock is free. A run that does not finish within 8 s is reported with a goroutine dump.",
-    "note": "Base scenarios include an embargo in force (both roles) and method bodies that complete with a capability when cancelled; torn writes of the stream transport are covered by the StreamTornGen / StreamTornTrace pair of this check.",
+    "level": "model_checking",
+    "design_ref": "DESIGN.md section 0.2 / 0.7 / 4 C09",
+    "technique": "(i) RpcLocks.tla, an implementation-shaped TLA+ model of the connection's synchronisation skeleton (Conn.mu, sender lock, task WaitGroup, bgctx, shutdown; receive loop, method goroutines, application senders, two Close callers, NewMessage / send faults, cancellable contexts), model-checked by TLC for deadlock freedom, its invariants and termination under fairness, with four variants that re-introduce repaired defects and must deadlock (controls); (ii) trace validation: the verif build records sender-lock, task and shutdown-phase events of every real Conn (hook verifSync) and RpcSync.tla - the projection of RpcLocks onto the recorded variables - must accept every execution; (iii) TLC-enumerated fault plans (base scenarios x {NewMessage, send, receive} failure x operation index x Close once/twice; Close injected at every step) replayed against a real Conn with a fault-injecting transport, judged by the RpcEndState trace specification + verif view of the connection mutex / sender lock; (iv) torn-write scripts on the stream transport (StreamTornGen / StreamTornTrace)",
+    "text": "For every plan: every local call resolves (not by the harness' own timeout), Close returns also the second time, Done closes, nothing is sent after the transport was closed, every capability is shut down, and afterwards mu.TryLock succeeds and the sender lock is free. A run that does not finish within 8 s is reported with a goroutine dump. For every connection of every plan the recorded synchronisation history must be a behaviour of RpcSync: sender lock exclusive, sends only under it (or by shutdown once it is alone), task counter never negative, no task added and no sender lock taken after shutdown's Wait returned, shutdown once and in order (cancel, wait with no task left, close), lock free and no task left at transport close. RpcLocks (2 methods, 1-2 application senders, 2 Close callers, 2-3 incoming messages, 1 fault) satisfies the same rules in every reachable state, never deadlocks and always terminates with the connection shut and both locks free.",
+    "note": "Base scenarios include an embargo in force (both roles) and method bodies that complete with a capability when cancelled; torn writes of the stream transport are covered by the StreamTornGen / StreamTornTrace pair of this check. RpcLocks abstracts the tables (questions, answers, exports) away: what is sent and to whom is the subject of C06-C08.",
 }
 
 CHECKS["C15"] = {
